@@ -81,3 +81,7 @@ POSTLUDE = r'''
 '''
 CANARY = dict(fn="no_validations", replace=("all_off(r.validation)", "all_on(r.validation)"))
 REPLAY = "emf_cfg"
+SYNTACTIC = [
+    dict(file=EMF, impl=r"^impl EmfBuilder$", fn="build", ordered=["validation : self . validation ,"],
+         absent=["self . validation ."], why="EmfBuilder::build forwards the validation switches unchanged"),
+]
